@@ -164,7 +164,7 @@ func (it *indexedMessageIterator) parseSummarySection() error {
 				return fmt.Errorf("failed to parse chunk index: %w", err)
 			}
 			// if the chunk overlaps with the requested parameters, load it
-			if (it.end == 0 && it.start == 0) || (idx.MessageStartTime < it.end && idx.MessageEndTime >= it.start) {
+			if (it.end == 0 && it.start == 0) || (beforeEnd(idx.MessageStartTime, it.end) && idx.MessageEndTime >= it.start) {
 				// Can't infer absence of a topic if there are no message indexes.
 				if len(idx.MessageIndexOffsets) == 0 {
 					it.chunkIndexes = append(it.chunkIndexes, idx)
@@ -332,7 +332,7 @@ func (it *indexedMessageIterator) loadChunk(chunkIndex *ChunkIndex) error {
 				return fmt.Errorf("could not parse message in chunk: %w", err)
 			}
 			if it.channels.Get(msg.ChannelID) != nil {
-				if msg.LogTime >= it.start && msg.LogTime < it.end {
+				if msg.LogTime >= it.start && beforeEnd(msg.LogTime, it.end) {
 					it.messageIndexes = append(it.messageIndexes, messageIndexWithChunkSlot{
 						timestamp:      msg.LogTime,
 						offset:         offset,
